@@ -9,7 +9,7 @@ SERVER_CODES = {"Internal", "Unknown", "DataLoss", "Unavailable", "Unimplemented
 def c13(tier):
     ck = Check("C13", tier)
     binary = build_harness()
-    per = 60 if tier == "quick" else 600
+    per = 60 if tier == "quick" else 3000
     cfg = write_cfg(["PerEndpoint = %d" % per])
     r = tlc("ApiReq", "r.cfg", files={"r.cfg": cfg}, extra=["-seed", str(seed())], workers=8)
     ck.add_tlc(r)
